@@ -741,6 +741,33 @@ func c16Flow(c *Ctx) {
 		c.check(okV, "C16.5", "Install:ValidatePath-before-walk", L.pos(w.instr.Pos()), "the base path is validated (not a regular file) before anything is installed", "ValidatePath dominates WalkDir, error edge cannot reach it")
 	}
 
+	// C16.9 the two target flags are plain, independent flags: --path and --user may be combined (--path wins), so their kong
+	// tags carry no exclusion/requirement option
+	if ac := L.Pkgs[llmPkg].Types.Scope().Lookup("AgentCmd"); ac != nil {
+		if st, ok := ac.Type().Underlying().(*types.Struct); ok {
+			nFlags := 0
+			for i := 0; i < st.NumFields(); i++ {
+				f := st.Field(i)
+				if f.Name() != "Path" && f.Name() != "User" {
+					continue
+				}
+				nFlags++
+				tag := parseKongTag(reflect.StructTag(st.Tag(i)).Get("kong"))
+				var bad []string
+				for k := range tag {
+					switch k {
+					case "short", "help", "name", "placeholder", "type", "default", "env", "aliases", "group", "negatable", "":
+					default:
+						bad = append(bad, k)
+					}
+				}
+				sort.Strings(bad)
+				c.check(len(bad) == 0, "C16.9", "AgentCmd."+f.Name()+":kong-options", "-", "the --"+strings.ToLower(f.Name())+" flag is an unconstrained flag (no xor/and/required/enum/hidden option): every documented flag combination reaches Run", fmt.Sprintf("options: %v", sortedKeys(tag)))
+			}
+			c.floor("C16.9", "target flags of AgentCmd", nFlags, 2)
+		}
+	}
+
 	// C16.6 success only after the whole walk: every success return of Install is dominated by the checked WalkDir call
 	// (no "already installed" shortcut that skips files)
 	ruleInstallWalksBeforeSuccess(c, "C16.6", install)
